@@ -6,6 +6,19 @@ from vlib.framework import Check, Outcome
 from vlib.sf import Crash
 
 
+def fix_key(v):
+    """What the proposed fixes would do, in *source* terms (own definition, not sqlfluff's source_signature): edit
+    type, the text of the edit segments and their source-level fixes.  Two reports of one violation whose keys are
+    equal are plain duplicates; if the keys differ, the variants/iterations really propose different fixes."""
+    out = []
+    for f in getattr(v, "fixes", None) or []:
+        edit = tuple(e.raw for e in f.edit) if f.edit else None
+        sfx = tuple((sf.edit, sf.source_slice.start, sf.source_slice.stop)
+                    for e in (f.edit or []) for sf in getattr(e, "source_fixes", []) or [])
+        out.append((f.edit_type, edit, sfx))
+    return tuple(out)
+
+
 class C33(Check):
     id = "C33"
     level = "exploration"
@@ -71,10 +84,10 @@ class C33(Check):
             tuples = [(v.rule_code(), v.line_no, v.line_pos, v.desc()) for v in vs]
             dups = sorted({t for t in tuples if tuples.count(t) > 1})
             for t in dups[:3]:
-                # sqlfluff de-duplicates on source_signature(), which for lint errors also contains the text of the
-                # proposed fixes: the same visible violation survives twice when two variants/iterations propose
-                # different fixes.  Tell that cause apart from a de-duplication that does not work at all.
-                sigs = [v.source_signature() for v in vs if (v.rule_code(), v.line_no, v.line_pos, v.desc()) == t]
+                # sqlfluff de-duplicates on a signature that also contains the text of the proposed fixes: the same visible
+                # violation survives twice when two variants/iterations propose different fixes (F-C33-a).  That cause is
+                # told apart from a de-duplication that does not work with the check's own fix_key().
+                sigs = [fix_key(v) for v in vs if (v.rule_code(), v.line_no, v.line_pos, v.desc()) == t]
                 cause = "fix-text-differs" if len(set(sigs)) == len(sigs) else "identical-signature"
                 out.fail(f"{name}: {t[0]} at {t[1]}:{t[2]} reported {tuples.count(t)} times: {t[3][:80]}", clause="duplicate",
                          where=name, rule=t[0], templated=templater != "raw", cause=cause)
